@@ -59,6 +59,7 @@ func runC17(r *run) {
 		slog.Default().SetWriter(quiet).SetErrorWriter(quiet)
 		r.emit("C17 reset", "ok")
 		usedVals := map[int]bool{}
+		wantErrDev := map[int]bool{} // custom levels registered so far: was the error device requested
 		for i := 0; i <= 11; i++ {
 			usedVals[i] = true
 		}
@@ -115,6 +116,27 @@ func runC17(r *run) {
 					q(fmt.Sprintf("C17 treat %d", l), "none")
 				}
 				q(fmt.Sprintf("C17 errdev %d", l), b01(slog.VerifUsesErrorDevice(L)))
+				if l != 7 {
+					// … and where a record of that level really goes: a logger whose normal and error writers differ
+					slog.SetFlags(slog.GetFlags() | slog.LnoInterrupt)
+					outW, errW := &recorder{}, &recorder{}
+					pl := slog.New("c17route").SetWriter(outW).SetErrorWriter(errW).SetLevel(slog.AlwaysLevel)
+					func() {
+						defer func() { _ = recover() }()
+						pl.Logit(context.Background(), L, "route probe")
+					}()
+					no, ne := len(outW.take()), len(errW.take())
+					if no+ne == 1 {
+						q(fmt.Sprintf("C17 errdev %d", l), b01(ne == 1))
+						if want, custom := wantErrDev[l]; custom && want != (ne == 1) {
+							r.violate(violation{What: "a registered level is not routed to the device its registration asked for",
+								Input: map[string]any{"level": l, "title": titled[l], "registered_for_the_error_device": want}, Expected: map[bool]string{true: "error writers", false: "normal writers"}[want],
+								Actual: map[bool]string{true: "error writers", false: "normal writers"}[ne == 1]})
+						}
+					} else {
+						r.violate(violation{What: "a record was not routed to exactly one of the two devices", Input: map[string]any{"level": l}, Actual: fmt.Sprintf("normal=%d error=%d", no, ne)})
+					}
+				}
 				q(fmt.Sprintf("C17 colors %d", l), b01(slog.VerifHasColors(L)))
 			}
 			for _, s := range probes {
@@ -235,6 +257,7 @@ func runC17(r *run) {
 			}
 			if err == nil {
 				usedVals[v], usedTitles[title] = true, true
+				wantErrDev[v] = toErr
 				known = append(known, v)
 				titled[v] = title
 			}
